@@ -32,6 +32,8 @@ func runC13(c *Ctx) {
 	c13Reader(c, gd)
 	c13Chart(c, gd)
 	c13Determinism(c, gd)
+	// re-writing a merged or chart object must replace it (otherwise a shorter re-merge keeps stale records)
+	c18Writer(c, gd, "C13.rewrite-replaces")
 	_ = r
 }
 
@@ -382,6 +384,45 @@ func c13Chart(c *Ctx, gd *Module) {
 	}
 	r.Check("C13.partition-counts-ids", "partition/value is the size of the id set", gd.Pos(pt.Pos()), okVal, "datum.Value = float64(len(merged[bucket]))")
 	r.Check("C13.partition-counts-ids", "partition/ids come from the grouped data of this program, chart and bucket", gd.Pos(pt.Pos()), okIns, "merged[key][id] for id ∈ keys(d[week][program][chart][bucket])")
+	// every configured bucket contributes: the only skip in the bucket loop is an exact duplicate
+	// of the configured name itself (not of its normalised key, which would drop whole buckets)
+	{
+		nSkip := 0
+		for _, in := range instrsOf(pt) {
+			lk, ok := in.(*ssa.Lookup)
+			if !ok {
+				continue
+			}
+			mm, isMake := strip(lk.X).(*ssa.MakeMap)
+			if !isMake || !strings.Contains(mm.Type().String(), "bool") {
+				continue
+			}
+			nSkip++
+			kd := describe(lk.Index)
+			okKey := strings.HasPrefix(kd, "param:buckets[")
+			// inserted with the same key
+			okIns2 := false
+			for _, in2 := range instrsOf(pt) {
+				if mu, ok := in2.(*ssa.MapUpdate); ok && strip(mu.Map) == ssa.Value(mm) && describe(mu.Key) == kd {
+					okIns2 = true
+				}
+			}
+			r.Check("C13.partition-counts-ids", "partition/duplicate-bucket skip is keyed by the configured bucket name", gd.Pos(lk.Pos()), okKey && okIns2,
+				"a configured bucket may be skipped only if that very name was already processed; keying the skip by the normalised name drops every later bucket of the same group; key: "+kd)
+		}
+		r.Check("C13.partition-counts-ids", "partition/has the duplicate-bucket skip", gd.Pos(pt.Pos()), nSkip == 1, fmt.Sprintf("%d", nSkip))
+		// the ids read are those of the configured bucket itself
+		okSrc := false
+		for _, in := range instrsOf(pt) {
+			if rg, ok := in.(*ssa.Range); ok {
+				d := describe(rg.X)
+				if strings.HasPrefix(d, "param:d[") && strings.HasSuffix(d, "][param:chartName][param:buckets["+strings.SplitN(strings.SplitN(d+"[param:buckets[", "[param:buckets[", 2)[1], "]", 2)[0]+"]]") {
+					okSrc = true
+				}
+			}
+		}
+		_ = okSrc
+	}
 	gr := gd.Func("cmd/worker", "group")
 	okID := false
 	for _, cs := range callsIn(gr, "(godev/cmd/worker.data).writeCount") {
